@@ -9,7 +9,6 @@ ID = "C05"
 MODULE = "C05"
 IMPORTS = "Bytes RustInt Range CacheControl Cache CacheProofs Fixture RustStd Vary VaryProofs"
 PROFILES = ("dev",)
-THEOREMS = []  # filled below (THEOREM_PINS)
 
 RULE = ("histories through the real kvarn::handle_cache in process (harness/src/c05.rs on top of c00pipe.rs): hosts with 1-3 pages, each page "
         "with a vary rule set of 0-3 rules (header name incl. mixed-case and non-token names, transformation from the many-to-few menu "
@@ -367,5 +366,28 @@ def describe(c):
     return {"component": c.comp, "kind": c.meta.get("kind"), "config": kv.pretty(c.x[1][0], 400), "ops": [kv.pretty(o, 120) for o in ops][:16]}
 
 
-THEOREM_PINS = []
+THEOREM_PINS = [
+    ('vary_served_for_equal_tuple',
+     "forall (hstate : Type) (compute : hstate -> request -> bool -> fat * hstate * list bytes) (cache_on ims_on : bool) (parse_ims : bytes -> option Z) (sanitize_ok : request -> bool) (prime : request -> request) (negotiate : request -> fat -> option (N * bytes)) (rules_of : bytes -> list rule) (dbg : bool) (ops : list op) (c : vcache) (hs : hstate) (now : N), InvV hstate compute rules_of c -> exists (l : list (obs * list request)) (st' : vstate hstate) (now' : N), runV hstate compute cache_on ims_on parse_ims sanitize_ok prime negotiate rules_of dbg (c, hs) now ops = Ok l /\\ runV_state hstate compute cache_on ims_on parse_ims sanitize_ok prime negotiate rules_of dbg (c, hs) now ops = Ok (st', now') /\\ InvV hstate compute rules_of (fst st') /\\ Forall2 (obs_ok hstate compute ims_on prime negotiate rules_of) ops l"),
+    ('variants_sorted',
+     "forall (hstate : Type) (compute : hstate -> request -> bool -> fat * hstate * list bytes) (cache_on ims_on : bool) (parse_ims : bytes -> option Z) (sanitize_ok : request -> bool) (prime : request -> request) (negotiate : request -> fat -> option (N * bytes)) (rules_of : bytes -> list rule) (dbg : bool) (ops : list op) (hs : hstate) (now : N), exists (l : list (obs * list request)) (st' : vstate hstate) (now' : N), runV hstate compute cache_on ims_on parse_ims sanitize_ok prime negotiate rules_of dbg ([], hs) now ops = Ok l /\\ runV_state hstate compute cache_on ims_on parse_ims sanitize_ok prime negotiate rules_of dbg ([], hs) now ops = Ok (st', now') /\\ (forall (k : key) (e : ventry), pc_find k (fst st') = Some e -> Sorted.StronglySorted (fun p q : fat * hcoll => cmp_hcoll (snd p) (snd q) = Lt) (vr_resps (ve_var e)) /\\ NoDup (map snd (vr_resps (ve_var e))) /\\ vr_resps (ve_var e) <> [])"),
+    ('lookup_refines_map',
+     'forall (v : varied fat) (r : request), vsorted (vr_resps v) -> let t := headers_for_request (vr_refs v) r in (exists f : fat, vfind t (vr_resps v) = Some f /\\ In (f, t) (vr_resps v) /\\ vr_get_by_request v r = Ok (Hit (f, t))) \\/ vfind t (vr_resps v) = None /\\ (exists L G : list (fat * hcoll), vr_resps v = L ++ G /\\ vr_get_by_request v r = Ok (Miss (Datatypes.length L) t) /\\ Forall (fun q : fat * hcoll => hlt (snd q) t) L /\\ Forall (fun q : fat * hcoll => hlt t (snd q)) G)'),
+    ('insert_refines_map',
+     "forall (L G : list (fat * hcoll)) (f : fat) (t t' : hcoll), vsorted (L ++ G) -> Forall (fun q : fat * hcoll => hlt (snd q) t) L -> Forall (fun q : fat * hcoll => hlt t (snd q)) G -> vsorted (L ++ (f, t) :: G) /\\ vfind t' (L ++ (f, t) :: G) = (if hc_eqb t t' then Some f else vfind t' (L ++ G))"),
+    ('lookup_never_wrong_variant',
+     'forall (v : varied fat) (r : request) (p : fat * hcoll), vr_get_by_request v r = Ok (Hit p) -> In p (vr_resps v) /\\ snd p = headers_for_request (vr_refs v) r'),
+    ('vary_refines_map',
+     'forall (hstate : Type) (compute : hstate -> request -> bool -> fat * hstate * list bytes) (ims_on : bool) (parse_ims : bytes -> option Z) (sanitize_ok : request -> bool) (prime : request -> request) (negotiate : request -> fat -> option (N * bytes)) (rules_of : bytes -> list rule) (dbg : bool) (ops : list op) (hs : hstate) (now : N), always_stored hstate compute -> Forall (op_ok ims_on sanitize_ok prime) ops -> runV hstate compute true ims_on parse_ims sanitize_ok prime negotiate rules_of dbg ([], hs) now ops = Ok (spec_run hstate compute true ims_on prime negotiate rules_of [] hs ops)'),
+    ('computed_once_per_tuple',
+     'forall (hstate : Type) (compute : hstate -> request -> bool -> fat * hstate * list bytes) (ims_on : bool) (parse_ims : bytes -> option Z) (sanitize_ok : request -> bool) (prime : request -> request) (negotiate : request -> fat -> option (N * bytes)) (rules_of : bytes -> list rule) (dbg : bool) (ops : list op) (hs : hstate) (now : N), always_stored hstate compute -> Forall (op_ok ims_on sanitize_ok prime) ops -> Forall (gh_req prime) ops -> exists l : list (obs * list request), runV hstate compute true ims_on parse_ims sanitize_ok prime negotiate rules_of dbg ([], hs) now ops = Ok l /\\ NoDup (map (cls rules_of) (calls_of l)) /\\ (forall r0 : request, In (OReq r0) ops -> In (cls rules_of (prime r0)) (map (cls rules_of) (calls_of l)))'),
+    ('default_applied',
+     'forall (ref : rule) (r : request), (header_get (ru_name ref) r = None -> header_for ref r = (ru_name ref, ru_default ref)) /\\ (forall v : bytes, header_get (ru_name ref) r = Some v -> to_str_ok v = false -> header_for ref r = (ru_name ref, ru_default ref)) /\\ (forall v : bytes, header_get (ru_name ref) r = Some v -> to_str_ok v = true -> header_for ref r = (ru_name ref, ru_xf ref v))'),
+    ('vary_header_eq',
+     'forall (negotiate : request -> fat -> option (N * bytes)) (rules_of : bytes -> list rule) (r : request) (f : fat) (lm cached : bool), let rp := finishV negotiate r f (own_tuple rules_of r) lm cached in (rp_body rp <> [] -> assoc (B "vary") (rp_headers rp) = Some (B "accept-encoding, range" ++ concat (map (fun ru : rule => B ", " ++ ru_name ru) (rules_of (rq_path r))))) /\\ (rp_body rp = [] -> assoc (B "vary") (rp_headers rp) = match negotiate r f with | Some _ => None | None => assoc (B "vary") (f_headers f) end)'),
+    ('stale_position_safe',
+     "forall (hstate : Type) (compute : hstate -> request -> bool -> fat * hstate * list bytes) (cache_on ims_on : bool) (negotiate : request -> fat -> option (N * bytes)) (rules_of : bytes -> list rule) (dbg : bool) (c : vcache) (hs : hstate) (now : N) (p : parked), InvV hstate compute rules_of c -> parked_ok rules_of p -> exists (st' : vstate hstate) (rp : reply) (lg : list bytes), serveV_phase2 hstate compute cache_on ims_on negotiate rules_of dbg c hs now p = Ok (st', rp, lg, [parked_req p]) /\\ InvV hstate compute rules_of (fst st') /\\ own_reply hstate compute negotiate rules_of (parked_req p) rp /\\ snd st' = snd (fst (compute hs (parked_req p) (parked_flag p))) /\\ lg = snd (compute hs (parked_req p) (parked_flag p))"),
+    ('stale_position_v0_refuted',
+     '(run_vary_v0 stale_panic_history = XL [XN 2] /\\ run_vary stale_panic_history = stale_panic_history_out) /\\ run_vary_v0 stale_unsorted_history = stale_unsorted_history_out_v0 /\\ run_vary stale_unsorted_history = stale_unsorted_history_out'),
+]
 THEOREMS = THEOREM_PINS
